@@ -1,2 +1,81 @@
-From DD Require Import Driver.
-Theorem placeholder : True. Proof. exact I. Qed.
+(** * Property C01 — Boolean connectives and ITE compute exactly the stated
+      truth function.  Only statements closed by [exact]; proofs live in
+      [Proofs/]. *)
+From DD Require Import C01proof.
+Local Open Scope string_scope.
+
+(** The table of [dd.bdd.BDD.apply] regenerated from the source is the table
+    the model interprets, and the vocabulary of dd/_abc.py is the model's. *)
+Theorem C01_generated_table_is_model :
+  py_apply_table = apply_table ∧ py_unary = unary_ops ∧
+  py_binary = binary_ops ∧ py_ternary = ternary_ops.
+Proof. exact py_table_is_model_table. Qed.
+
+(** Every propositional symbol of the vocabulary (all aliases) has a row in
+    the generated table whose Boolean reading, on all 8 valuations, is the
+    documented connective [conn_sem]; the remaining symbols are the four
+    quantifier spellings (property C03). *)
+Theorem C01_alias_table :
+  forallb (fun op => bool_decide (op ∈ quantifier_ops) ||
+                     class_uses_ok py_apply_table py_unary py_binary py_ternary op)
+          py_vocab = true.
+Proof. exact alias_table_ok. Qed.
+
+(** [assert_operator_arity] as translated from dd/_utils.py accepts exactly
+    the operand shapes the model accepts. *)
+Theorem C01_arity_rules :
+  forallb (fun op => forallb (fun '(v, w) =>
+             bool_decide (py_arity_ok op v w = arity_ok op v w))
+           [(None, None); (Some 1%Z, None); (None, Some 1%Z); (Some 1%Z, Some 1%Z)])
+          ("unknown" :: py_vocab) = true.
+Proof. exact py_arity_is_model_arity. Qed.
+
+(** ITE, for every manager state satisfying the invariant (whatever history
+    produced it: warm cache, reused node numbers, any order), every triple of
+    references, unbounded sizes.  Dynamic reordering disabled here; C09 lifts
+    it.  Operands and every other reference keep their meaning. *)
+Theorem C01_ite_correct s g u v r s' :
+  Inv s → valid s g → valid s u → valid s v → last_len s = None →
+  ite g u v s = (r, s') →
+  ∃ w, r = Ok w ∧ Inv s' ∧ extends s s' ∧ valid s' w ∧
+    (∀ x ρ, valid s x → denv s' x ρ = denv s x ρ) ∧
+    ∀ ρ, denv s' w ρ = if denv s g ρ then denv s u ρ else denv s v ρ.
+Proof. exact (ite_correct_lemma s g u v r s'). Qed.
+
+(** The same with the reordering signal allowed (nested call or reordering
+    enabled): the only exception is the reordering request, and the manager
+    is intact when it propagates. *)
+Theorem C01_ite_correct_signal s g u v r s' :
+  Inv s → valid s g → valid s u → valid s v → no_reorder s →
+  ite g u v s = (r, s') →
+  Inv s' ∧ extends s s' ∧ frame s s' ∧
+  match r with
+  | Ok w => valid s' w ∧ minlvl3 s g u v ≤ lvl_of s' w ∧
+            ∀ a, D s' w a = if D s g a then D s u a else D s v a
+  | Err e => e = ENeedsReordering ∧ is_Some (last_len s)
+  end.
+Proof. exact (ite_spec s g u v r s'). Qed.
+
+(** [apply] for every propositional symbol and alias of the vocabulary. *)
+Theorem C01_apply_correct s op u v w r s' f :
+  Inv s → last_len s = None →
+  op ∈ py_vocab → conn_sem op = Some f →
+  valid s u → ovalid s v → ovalid s w → arity_ok op v w = true →
+  apply op u v w s = (r, s') →
+  ∃ x, r = Ok x ∧ Inv s' ∧ extends s s' ∧ valid s' x ∧
+    (∀ y ρ, valid s y → denv s' y ρ = denv s y ρ) ∧
+    ∀ ρ, denv s' x ρ = f (denv s u ρ) (odenv s v ρ) (odenv s w ρ).
+Proof. exact (apply_correct_lemma s op u v w r s' f). Qed.
+
+(** Non-vacuity: a manager with three variables, after building
+    (v0 /\ v1) \/ v2, satisfies the hypotheses, and the theorem's
+    conclusion can be observed by computation. *)
+Example C01_nonvacuous :
+  let w := fold_left (fun w o => fst (step w 0 o))
+             [ONew [(0, 0); (1, 1); (2, 2)]; OVar 0; OVar 1; OVar 2;
+              OApply "and" 2 (Some 3%Z) None; OApply "\/" 5 (Some 4%Z) None]
+             world_empty in
+  let s := world_get w 0 in
+  mem 7 s = true ∧ last_len s = None ∧
+  snd (step w 0 (OApply "=>" 7 (Some (-5)%Z) None)) = Ok (VZ (-5)).
+Proof. by vm_compute. Qed.
